@@ -62,8 +62,11 @@ impl VIOT {
         self.checksum.add(sum);
 
         // The header also contains a count of the number of nodes, so the
-        // sum needs an additional '1' added to it.
-        self.checksum.add(1);
+        // sum follows the little-endian bytes of that count.
+        let old_count = self.nodes.len() as u16;
+        let new_count = old_count.wrapping_add(1);
+        self.checksum.delete(old_count.as_bytes());
+        self.checksum.append(new_count.as_bytes());
 
         self.header.checksum = self.checksum.value();
     }
